@@ -81,6 +81,34 @@ def to_arr(x, shape, cplx):
     return a.reshape(shape)
 
 
+def relayout(a, code):
+    """the same logical (Ne, n, m) values in another memory layout / array class: the element-array -> flat
+    triplet step of the assembly must not depend on it.  code = [fe:]C|F|T|neg|negl|strided"""
+    if a is None or not code or code == "C":
+        return a
+    fe = code.startswith("fe:")
+    c = code[3:] if fe else code
+    if c == "F":
+        v = np.asfortranarray(a)
+    elif c == "T":          # transposed buffer, viewed back: strides of the last two axes swapped
+        v = np.swapaxes(np.ascontiguousarray(np.swapaxes(a, -1, -2)), -1, -2)
+    elif c == "neg":        # negative stride on the element axis
+        v = np.ascontiguousarray(a[::-1])[::-1]
+    elif c == "negl":       # negative stride on the last axis
+        v = np.ascontiguousarray(a[..., ::-1])[..., ::-1]
+    elif c == "strided":    # every other entry of a wider buffer
+        big = np.zeros(a.shape[:-1] + (2 * a.shape[-1],), dtype=a.dtype)
+        big[..., ::2] = a
+        v = big[..., ::2]
+    else:
+        v = a
+    assert np.array_equal(v, a)
+    if fe:
+        from EasyFEA.FEM import FeArray
+        v = v.view(FeArray)
+    return v
+
+
 def flat_vals(a, cplx):
     """exact integer flattening of the data array of a CSR (raises if a value is not an integer)."""
     a = np.asarray(a)
@@ -195,9 +223,70 @@ def run_big(case):
     return res
 
 
+def run_kcmf(case):
+    """histories in which the ACTIVE mesh changes by public routes (mesh setter, Set_Iter across meshes, back and
+    forth): after each, Get_K_C_M_F must return the scatter-add for the connectivity of the active mesh."""
+    simu, meshes, groups, gid_of, pts, LagrangeCondition = build(case)
+    pt = pts[0]
+    dof_n = simu.Get_dof_n(pt)
+    res = {"id": case["id"], "assemblies": [], "prop_fail": None, "error": None, "cache": [], "active": []}
+    tabs, slots_of = [], []
+    for mi, table in enumerate(case["tables"]):
+        tab, slots = {}, [[], [], [], []]
+        for gid, four in table:
+            Ne, nPe = len(case["conn"][str(gid)]), case["nPe"][str(gid)]
+            n = nPe * dof_n
+            arrs = []
+            for si, x in enumerate(four):
+                a = to_arr(x, (Ne, n, n) if si < 3 else (Ne, n, 1), False)
+                arrs.append(relayout(a, (case.get("layouts") or {}).get(str(gid), [None] * 4)[si]))
+                slots[si].append((gid, a))
+            tab[groups[gid]] = tuple(arrs)
+        tabs.append(tab)
+        slots_of.append(slots)
+    nget = 0
+    for iop, op in enumerate(case["ops"]):
+        k = op["op"]
+        if k == "get":
+            act = [i for i, m in enumerate(meshes) if m is simu.mesh]
+            act = act[0] if act else -1
+            res["active"].append(act)
+            simu.table = tabs[act]
+            K, C, M, F = simu.Get_K_C_M_F()
+            Ndof = K.shape[0]
+            out = []
+            for si, X in enumerate((K, C, M, F)):
+                out.append([flat_vals(X.data, False), [int(v) for v in X.indices], [int(v) for v in X.indptr]])
+                isM = si < 3
+                exp_Ndof = meshes[op["expect_mesh"]].Nn * dof_n
+                shape_ok = X.shape == ((exp_Ndof, exp_Ndof) if isM else (exp_Ndof, 1))
+                D = dense_reference(groups, slots_of[op["expect_mesh"]][si], dof_n, exp_Ndof, isM)
+                if res["prop_fail"] is None and (act != op["expect_mesh"] or not shape_ok or not np.array_equal(X.toarray().astype(complex), D)):
+                    res["prop_fail"] = {"op_index": iop, "assembly_index": nget, "slot": "KCMF"[si], "active_mesh": act, "expected_mesh": op["expect_mesh"],
+                                        "impl": X.toarray().real.tolist() if shape_ok else str(X.shape), "dense": D.real.tolist()}
+            res["assemblies"].append({"Ndof": int(Ndof), "out": out})
+            nget += 1
+        elif k == "save":
+            simu.Save_Iter()
+        elif k == "setiter":
+            simu.Set_Iter(op["iter"])
+        elif k == "setmesh":
+            simu.mesh = meshes[op["mesh"]]
+        elif k == "needupdate":
+            simu.Need_Update()
+        elif k == "clear":
+            from EasyFEA.Utilities._cache import clear_cached_computed_values
+            clear_cached_computed_values(simu)
+        else:
+            raise ValueError("unknown op " + k)
+    return res
+
+
 def run_case(case):
     if case.get("big"):
         return run_big(case)
+    if case.get("kcmf"):
+        return run_kcmf(case)
     simu, meshes, groups, gid_of, pts, LagrangeCondition = build(case)
     cplx = case["complex"]
     res = {"id": case["id"], "assemblies": [], "prop_fail": None, "error": None}
@@ -216,7 +305,7 @@ def run_case(case):
                 arrs = []
                 for si, x in enumerate(four):
                     a = to_arr(x, (Ne, n, n) if si < 3 else (Ne, n, 1), cplx)
-                    arrs.append(a)
+                    arrs.append(relayout(a, (op.get("layouts") or {}).get(str(gid), [None] * 4)[si]))
                     slots[si].append((gid, a))
                 tab[g] = tuple(arrs)
             simu.table = tab
@@ -232,6 +321,18 @@ def run_case(case):
                     res["prop_fail"] = {"op_index": iop, "assembly_index": nass, "slot": "KCMF"[si],
                                         "impl": X.toarray().astype(complex).real.tolist() if shape_ok else str(X.shape),
                                         "dense": D.real.tolist()}
+            if res["prop_fail"] is not None and res["prop_fail"]["op_index"] == iop and op.get("layouts"):
+                # diagnosis: the same values as plain C-contiguous ndarrays
+                simu.table = {groups[gid]: tuple(a for (g2, a) in [(gid, slots[si][j][1]) for si in range(4)])
+                              for j, (gid, _) in enumerate(op["table"])}
+                try:
+                    ok = True
+                    for si, X in enumerate(simu.Assembly(pt)):
+                        D = dense_reference(groups, slots[si], dof_n, Ndof, si < 3)
+                        ok = ok and X.shape[0] == Ndof and np.array_equal(X.toarray().astype(complex), D)
+                    res["prop_fail"]["contiguous_ok"] = bool(ok)
+                except Exception:
+                    res["prop_fail"]["contiguous_ok"] = False
             res["assemblies"].append({"Ndof": int(Ndof), "out": out})
             nass += 1
         elif k == "clear":
